@@ -21,7 +21,9 @@ MANIFEST = {
             "of each free / clear / destructor obligation), D2 that the wiping sink really wipes (ascon_clean "
             "reaches explicit_bzero / a volatile loop over the whole range; ascon_free reaches it for the whole "
             "state) and D3 that state objects living on the stack of a library function (the one-shot functions) "
-            "are wiped by a non-elidable primitive before every return on which they were written; checked at -O0 "
+            "are wiped by a non-elidable primitive before every return on which they were written, D4 that the "
+            "wiping destructor of every polymorphic class sits in its vtable (destruction through the base interface "
+            "wipes); checked at -O0 "
             "and, in the thorough tier, on the -O3 IR; the claim is at LLVM-IR level",
     "note": "trusted: clang -O3 as a model of the shipped optimiser (the release build uses the system cc), "
             "libc explicit_bzero, irdump; padding bytes are outside the claim; members never written with "
